@@ -284,7 +284,7 @@ class C12(Check):
     real = ["sparseSpACE.Function: every built-in class and wrapper named in engines/function_sim.py (call path, cache, vectorised overrides, analytic integrals)"]
     stub = ["none: the environment is the caller issuing the operation sequence"]
     rule = ("schedule = function family + seeded parameters + a history of <= 30 operations: single call, batch call (with duplicates, with "
-            "previously seen points, the empty batch), eval_vectorized on 2-D and 3-D arrays, reset_dictionary, deactivate_caching, size / "
+            "previously seen points, the empty batch, calls whose coordinates are all integer-typed), eval_vectorized on 2-D and 3-D arrays, reset_dictionary, deactivate_caching, a second object of the same class taking turns (foreign activity), size / "
             "points / values queries. Every returned value is compared with eval of an un-cached twin instance, shapes with (#points, "
             "output_length), the evaluation counter with a dict+set reference cache while caching is on. A state is (family, cache key set, "
             "caching flag); distinct_nontrivial counts distinct states after an operation. Analytic integrals are a stateless side-oracle "
